@@ -587,7 +587,7 @@ def loader_part(ctx):
     for kind, op, det in bad[:3]:
         ctx.violation(kind, "h_select:loader:%s" % kind,
                       "driver calls forwarded by the loader: `%s` -> %s (drivers: %s)" % (op, str(det)[:300], c12.describe_slots(slots)),
-                      {"harness": "h_select", "slots": c12.slots_json(slots), "op": op})
+                      {"harness": "h_select", "slots": c12.slots_json(slots), "ops": [op]})
     ctx.cov["loader_part"] = {"ops": len(ops), "devices": n, "problems": len(bad)}
 
 
